@@ -41,6 +41,8 @@ def queries(tier, seed=0):
                 qs.append(dict(kind='skel', skel=sk, numtype=nt, **g))
         qs.append(dict(kind='skel', skel=sk, numtype='float', sym=['nums'], picks=['e_ftp'] if sk == 'B' else []))
     qs.append(dict(kind='skel', skel='B', numtype='float', sym=['nums'], picks=[], privescs=0))
+    for sk in ('A', 'B'):
+        qs.append(dict(kind='skel', skel=sk, numtype='float', sym=['nums', 'cfg', 'hostvalue'], host_order='reversed'))
     if tier != 'quick':
         qs.append(dict(kind='skel', skel='B', numtype='float', sym=['nums'], picks=['e_ssh', 'e_ftp']))
     from nasim.scenarios.benchmark import AVAIL_STATIC_BENCHMARKS
